@@ -81,6 +81,9 @@ static void gen_action(Rng &r, unsigned len, bool subst, Bytes &a, unsigned numU
         if (subst && s + 1 == len && r.chance(1, 400)) {  // deletes the look-ahead slot behind the matched range as well: the loader must refuse it
             w8(a, DELETE); w8(a, NEXT); w8(a, DELETE); w8(a, RET_ZERO); return;
         }
+        if (subst && s + 1 == len && r.chance(1, 40)) {   // the action ends on the slot it has just deleted (no NEXT): the pass has to move its cursor off a slot that is being recycled
+            w8(a, DELETE); w8(a, RET_ZERO); return;
+        }
         if (subst && r.chance(1, 25)) {     // insertion burst: many new slots from one input slot (slot-pool growth paths, growth cap)
             unsigned k = 2 + r.below(20);
             for (unsigned q = 0; q < k; ++q) { w8(a, INSERT); w8(a, PUT_GLYPH8); w8(a, r.below(NGLYPH_USED)); w8(a, NEXT); }
